@@ -748,6 +748,20 @@ def array_ufunc(ufunc, method, inputs, kwargs):
         return _reduce(ufunc, fn, inputs[0], kwargs)
     if method == "accumulate":
         return _accumulate(fn, inputs[0], kwargs)
+    if method == "at":
+        tgt, idx, vals = inputs
+        plain = tgt.view(np.ndarray) if isinstance(tgt, np.ndarray) else None
+        if plain is None or (plain.dtype != object and has_sym(vals)):
+            raise Unsupported("ufunc.at into a numeric array with symbolic values")
+        idx_c = concretize_ints(np.asarray(_plain(idx) if isinstance(idx, np.ndarray) else idx))
+        V = np.broadcast_to(np.asarray(_plain(vals), dtype=object), (len(idx_c),) + plain.shape[1:])
+        for k, i in enumerate(idx_c.tolist()):
+            if plain.ndim == 1:
+                plain[i] = fn(plain[i], V[k])
+            else:
+                row = _elementwise(fn, [plain[i], V[k]])
+                plain[i] = row
+        return None
     if method == "outer":
         a, b = inputs
         a = np.asarray(_plain(a), dtype=object)
@@ -1303,6 +1317,31 @@ def sym_mean(a, axis=None, dtype=None, out=None, keepdims=False, **kw):
     return s_div(s, n)
 
 
+def sym_nansum(a, axis=None, **kw):
+    z = _elementwise(lambda e: ite(s_isnan(e), 0.0, e) if isinstance(e, Sym) else (0.0 if s_isnan(e) else e), [a])
+    return _reduce(np.add, UFUNC_TABLE[np.add], z, dict(axis=axis, keepdims=kw.get("keepdims", False)))
+
+
+def sym_nanmean(a, axis=None, **kw):
+    tot = sym_nansum(a, axis=axis, **kw)
+    cnt = _reduce(np.add, UFUNC_TABLE[np.add], _elementwise(lambda e: _num(not_(s_isnan(e))) if isinstance(s_isnan(e), Sym) else (0 if s_isnan(e) else 1), [a]),
+                  dict(axis=axis, keepdims=kw.get("keepdims", False)))
+
+    def div(t, c):
+        t, c = _num(t), _num(c)
+        if _conc(t) and _conc(c):
+            with np.errstate(all="ignore"):
+                return np.true_divide(t, c)
+        return s_div(t, c)          # 0/0 -> NaN (all-NaN slice), as NumPy
+    if isinstance(tot, np.ndarray) or isinstance(cnt, np.ndarray):
+        return _result(_elementwise(div, [tot, cnt]))
+    return div(tot, cnt)
+
+
+def sym_nan_to_num(x, copy=True, nan=0.0, posinf=None, neginf=None):
+    return _result(_elementwise(lambda e: ite(s_isnan(e), nan, e) if isinstance(e, Sym) else (nan if s_isnan(e) else e), [x]))
+
+
 def sym_any(a, axis=None, out=None, keepdims=False, **kw):
     return _reduce(np.logical_or, s_or, _elementwise(lambda e: e if isinstance(e, (SBool, builtins.bool, np.bool_)) else _num(e) != 0, [a]),
                    dict(axis=axis, keepdims=keepdims))
@@ -1389,11 +1428,11 @@ def _install():
               np.take_along_axis, np.rot90, np.array_split, np.split, np.delete, np.insert, np.append, np.pad, np.diag,
               np.triu, np.tril, np.compress, np.resize, np.trim_zeros):
         _reg(f, _structural(f._implementation))
-    for f in (np.diff, np.ediff1d, np.gradient, np.outer, np.trace, np.nan_to_num, np.average, np.ptp, np.cross,
-              np.real, np.imag, np.iscomplexobj, np.isrealobj, np.iscomplex, np.isreal, np.shape, np.ndim, np.size, np.var, np.std,
+    for f in (np.diff, np.ediff1d, np.gradient, np.outer, np.trace, np.average, np.ptp, np.cross,
+              np.imag, np.iscomplexobj, np.isrealobj, np.iscomplex, np.isreal, np.shape, np.ndim, np.size, np.var, np.std,
               np.angle, np.apply_along_axis, np.flatnonzero, np.argwhere, np.empty_like, np.full_like, np.ones_like,
-              np.result_type, np.can_cast, np.around, np.fix, np.nansum, np.linspace, np.ix_, np.meshgrid,
-              np.setxor1d, np.intersect1d, np.union1d, np.array_equiv, np.allclose, np.nanmean, np.unravel_index):
+              np.result_type, np.can_cast, np.around, np.fix, np.linspace, np.ix_, np.meshgrid,
+              np.setxor1d, np.intersect1d, np.union1d, np.array_equiv, np.allclose, np.unravel_index):
         _reg(f, _passthrough(f))
     _reg(np.where, sym_where)
     _reg(np.real, sym_real)
@@ -1404,6 +1443,7 @@ def _install():
     _reg(np.nanargmax, lambda a, axis=None, out=None, **kw: sym_argext(a, axis, "max", True))
     _reg(np.nanargmin, lambda a, axis=None, out=None, **kw: sym_argext(a, axis, "min", True))
     _reg(np.sort, lambda a, axis=-1, **kw: sym_sort(a, axis))
+    _reg(np.partition, lambda a, kth, axis=-1, **kw: sym_sort(a, axis))
     _reg(np.median, sym_median)
     _reg(np.percentile, sym_percentile)
     _reg(np.unique, sym_unique)
@@ -1425,6 +1465,9 @@ def _install():
     _reg(np.nanmax, sym_sum_like(np.fmax))
     _reg(np.nanmin, sym_sum_like(np.fmin))
     _reg(np.mean, sym_mean)
+    _reg(np.nanmean, sym_nanmean)
+    _reg(np.nansum, sym_nansum)
+    _reg(np.nan_to_num, sym_nan_to_num)
     _reg(np.any, sym_any)
     _reg(np.all, sym_all)
     _reg(np.count_nonzero, sym_count_nonzero)
